@@ -379,15 +379,17 @@ CONTRASTS = [
 ]
 
 
-def categorical_atoms(rng: random.Random, v: str, levels: list[str], *, rich: bool = True) -> dict:
+def categorical_atoms(rng: random.Random, v: str, levels: list[str], *, rich: bool = True, force_custom: bool = False) -> dict:
     n = q(v)
     kind = core.weighted(rng, [("lookup", 6), ("C", 6), ("hashed", 2), ("Q", 1), ("I", 1), ("Clevels", 2)] if rich else [("lookup", 3), ("C", 2)])
+    if force_custom:
+        kind = "C"
     a: dict[str, Any] = {"vars": [v], "kind": "cat", "cls": "C", "stateful": True, "bounded": False, "mean_based": False}
     if kind == "lookup":
         a.update(expr=n, cls="lookup")
     elif kind == "C":
         c = rng.choice(CONTRASTS).format(base=repr(levels[rng.randrange(len(levels))]))
-        if rng.random() < 0.12 and len(levels) >= 2:
+        if (force_custom or rng.random() < 0.25) and len(levels) >= 2:
             L = len(levels)
             rows = [[1 if j == i else 0 for j in range(L - 1)] for i in range(L - 1)] + [[-1] * (L - 1)]
             if rng.random() < 0.5:
@@ -486,7 +488,15 @@ def gen_formula(rng: random.Random, u: dict, *, rich: bool = True, structured_p:
         lhs = atom()["expr"]
         spec = f"{lhs} ~ {part(max_terms)}"
     elif form == "multi":
-        spec = f"{atom()['expr']} ~ {part(3)} | {part(2)}"
+        if cat and rng.random() < 0.45:
+            # one contrast-coded factor in two parts, once under an intercept (reduced rank) and once without (full rank)
+            v_ = rng.choice(cat)
+            ca = categorical_atoms(rng, v_, cols[v_]["levels"], rich=True, force_custom=rng.random() < 0.5)
+            atoms.append(ca)
+            lhs_ = atom()["expr"]
+            spec = f"{lhs_} ~ {ca['expr']} + {part(2)} | {ca['expr']} - 1"
+        else:
+            spec = f"{atom()['expr']} ~ {part(3)} | {part(2)}"
     elif form == "dict":
         spec = {"m1": part(3), "m2": part(2)}
     else:
